@@ -299,7 +299,7 @@ func registerNatives(e *Engine) {
 		if !s.Conc {
 			panic(unsupported("IPStringToBytes stub needs a concrete placeholder"))
 		}
-		if s.S == "" || strings.HasPrefix(s.S, "bad") {
+		if s.S == "" || (strings.HasPrefix(s.S, "bad") || strings.HasPrefix(s.S, "!")) {
 			return TupleV{e.Zero(types.NewSlice(types.Typ[types.Uint8])), c.False(), e.mkError(st, "IP parse: incorrect format")}, true
 		}
 		var qv Value
@@ -330,7 +330,7 @@ func registerNatives(e *Engine) {
 	parseStub := func(signed bool) NativeFn {
 		return func(e *Engine, st *State, cc *CallCtx) (Value, bool) {
 			s := e.normStr(cc.Args[0].(StrV))
-			if s.Conc && strings.HasPrefix(s.S, "bad") {
+			if s.Conc && (s.S == "" || (strings.HasPrefix(s.S, "bad") || strings.HasPrefix(s.S, "!"))) {
 				return TupleV{e.k64(0), e.mkError(st, "strconv: invalid syntax")}, true
 			}
 			bits := cc.Args[2].(*smt.Term)
@@ -382,6 +382,28 @@ func registerNatives(e *Engine) {
 			return TupleV{x, IfaceV{}}, true
 		}
 	}
+	// ParseDuration stub: the duration registered for the placeholder text (nanoseconds)
+	e.reg(V+"ParseDuration", func(e *Engine, st *State, cc *CallCtx) (Value, bool) {
+		s := e.normStr(cc.Args[0].(StrV))
+		if !s.Conc || s.S == "" || (strings.HasPrefix(s.S, "bad") || strings.HasPrefix(s.S, "!")) {
+			return TupleV{e.k64(0), e.mkError(st, "time: invalid duration")}, true
+		}
+		if x, ok := getReg(st, numRegID)[s.S]; ok {
+			return TupleV{x, IfaceV{}}, true
+		}
+		return TupleV{e.fresh(st, "i64", "duration", 64), IfaceV{}}, true
+	})
+	// NowSec: the clock as an arbitrary non-decreasing sequence of seconds
+	e.reg(V+"NowSec", func(e *Engine, st *State, cc *CallCtx) (Value, bool) {
+		x := e.fresh(st, "i64", "now", 64)
+		e.assume(st, c.And(c.Sge(x, c.Const(1000000000, 64)), c.Sle(x, c.Const(4000000000, 64))))
+		if last, ok := st.heap[clockID]; ok {
+			e.assume(st, c.Sge(x, last.(*smt.Term)))
+		}
+		st.dirty = true
+		st.heap[clockID] = x
+		return x, true
+	})
 	e.reg(V+"ParseInt", parseStub(true))
 	e.reg(V+"ParseUint", parseStub(false))
 	// Pure*: run a side-effect-free closure on all its paths and merge the results into ONE term
@@ -538,6 +560,7 @@ const (
 	numQueueID = -3
 	ipRegID    = -4
 	numRegID   = -5
+	clockID    = -7
 )
 
 type hashEnt struct {
